@@ -197,6 +197,215 @@ def install():
     _installed[0] = True
 
 
+# ------------------------------------------------------------------ C09: invariant at the executor steps
+_in_hook = [False]
+_step_hooks = [False]
+
+
+def _rows(frame, cols):
+    from vf.compare import to_rows
+
+    return to_rows(frame, cols)
+
+
+def _agg_ref(name, vals):
+    """reference value of a simple aggregate over a list of normalised cells (None = null); returns (ok, value)"""
+    nn = [v for v in vals if v is not None]
+    if len(vals) == 0:
+        # aggregate over an empty group (ungrouped project of an empty input): min/max/mean are null everywhere,
+        # sum/count/size are the accepted convention point (0 or NULL)
+        if name in ("min", "max", "mean"):
+            return True, None
+        return False, None
+    if name in ("size", "_size"):
+        return True, len(vals)
+    if name == "count":
+        return True, len(nn)
+    if name == "sum":
+        if not nn:
+            return False, None  # accepted convention point (0 or NULL)
+        if any(isinstance(v, str) for v in nn):
+            return False, None
+        return True, sum(nn)
+    if name in ("min", "max"):
+        if any(isinstance(v, str) for v in nn):
+            return False, None
+        if not nn:
+            return True, None
+        return True, (min(nn) if name == "min" else max(nn))
+    if name == "mean":
+        if not nn:
+            return True, None
+        if any(isinstance(v, str) for v in nn):
+            return False, None
+        return True, sum(nn) / len(nn)
+    return False, None
+
+
+def check_agg_node(op, inp, res, where):
+    """C09 invariants for one project / windowed-extend node given its materialised input and output.
+    returns list of failure strings; also counts what was compared in OBS.calls"""
+    import data_algebra.expr_rep as er
+    from vf.compare import cell_eq
+
+    fails = []
+    kind = op.node_name
+    try:
+        n_in = inp.shape[0] if hasattr(inp, "shape") else inp.height
+        n_out = res.shape[0] if hasattr(res, "shape") else res.height
+    except Exception:
+        return fails
+    if kind == "ProjectNode":
+        keys = list(op.group_by)
+        if not keys:
+            OBS.hit("c09:project-nogroup:" + where)
+            if n_in == 0:
+                OBS.hit("c09:project-nogroup-empty-input:" + where)
+            if n_out != 1:
+                fails.append(f"project without group_by returned {n_out} rows (input {n_in} rows)")
+                return fails
+            in_groups = {(): _rows(inp, sorted(inp.columns, key=str))}
+            colidx = {c: i for i, c in enumerate(sorted(inp.columns, key=str))}
+        else:
+            OBS.hit("c09:project-group:" + where)
+            cols = sorted(inp.columns, key=str)
+            colidx = {c: i for i, c in enumerate(cols)}
+            in_groups = {}
+            for r in _rows(inp, cols):
+                in_groups.setdefault(tuple(r[colidx[k]] for k in keys), []).append(r)
+            if any(any(x is None for x in k) for k in in_groups):
+                OBS.hit("c09:null-key-group:" + where)
+            if n_out != len(in_groups):
+                fails.append(f"project group_by={keys} returned {n_out} rows for {len(in_groups)} distinct key "
+                             f"combinations {sorted(map(repr, in_groups))[:6]}")
+                return fails
+        ocols = list(res.columns)
+        oidx = {c: i for i, c in enumerate(ocols)}
+        for r in _rows(res, ocols):
+            k = tuple(r[oidx[c]] for c in keys)
+            if k not in in_groups:
+                # tolerate float keys that differ in representation
+                match = [g for g in in_groups if len(g) == len(k) and all(cell_eq(a, b) for a, b in zip(g, k))]
+                if not match:
+                    fails.append(f"project output key {k} is not a key combination of the input")
+                    continue
+                k = match[0]
+            for c, e in op.ops.items():
+                if c not in oidx or not isinstance(e, er.Expression):
+                    continue
+                fails.extend(_check_agg_value(e, c, r[oidx[c]], in_groups[k], colidx, k, where))
+    elif kind == "ExtendNode":
+        if not (op.windowed_situation or len(op.partition_by) > 0 or len(op.order_by) > 0):
+            return fails
+        OBS.hit("c09:window:" + where)
+        if n_out != n_in:
+            fails.append(f"windowed extend changed the number of rows {n_in} -> {n_out}")
+            return fails
+        if len(op.order_by) > 0:
+            return fails  # per-row values of ordered windows are C27's business
+        keys = list(op.partition_by)
+        cols = sorted(inp.columns, key=str)
+        colidx = {c: i for i, c in enumerate(cols)}
+        in_groups = {}
+        for r in _rows(inp, cols):
+            in_groups.setdefault(tuple(r[colidx[k]] for k in keys), []).append(r)
+        if any(any(x is None for x in k) for k in in_groups):
+            OBS.hit("c09:null-key-partition:" + where)
+        ocols = list(res.columns)
+        oidx = {c: i for i, c in enumerate(ocols)}
+        for r in _rows(res, ocols):
+            k = tuple(r[oidx[c]] for c in keys)
+            if k not in in_groups:
+                match = [g for g in in_groups if len(g) == len(k) and all(cell_eq(a, b) for a, b in zip(g, k))]
+                if not match:
+                    fails.append(f"windowed extend output row has partition key {k} not present in its input")
+                    continue
+                k = match[0]
+            for c, e in op.ops.items():
+                if c not in oidx or not isinstance(e, er.Expression):
+                    continue
+                fails.extend(_check_agg_value(e, c, r[oidx[c]], in_groups[k], colidx, k, where))
+    return fails[:3]
+
+
+def _check_agg_value(e, c, got, group_rows, colidx, key, where):
+    import data_algebra.expr_rep as er
+    from vf.compare import cell_eq
+
+    name = e.op
+    if len(e.args) == 0:
+        vals = [1] * len(group_rows)
+    elif isinstance(e.args[0], er.ColumnReference):
+        if e.args[0].column_name not in colidx:
+            return []
+        j = colidx[e.args[0].column_name]
+        vals = [r[j] for r in group_rows]
+    elif isinstance(e.args[0], er.Value):
+        vals = [e.args[0].value] * len(group_rows)
+        from vf.compare import norm_cell
+        vals = [norm_cell(v) for v in vals]
+    else:
+        return []
+    ok, want = _agg_ref(name, vals)
+    if not ok:
+        return []
+    OBS.hit("c09:values-compared:" + where)
+    if not cell_eq(got, want):
+        return [f"{c} = {name}(...) over group {key} is {got!r}, expected {want!r} (group values {vals[:8]})"]
+    return []
+
+
+def _wrap_step(orig, source_eval_name, where):
+    @functools.wraps(orig)
+    def wrapper(self, op, *, data_map):
+        res = orig(self, op=op, data_map=data_map)
+        if _in_hook[0]:
+            return res
+        _in_hook[0] = True
+        try:
+            inp = getattr(self, source_eval_name)(op.sources[0], data_map=data_map)
+            r2 = res
+            if hasattr(inp, "collect"):
+                inp = inp.collect()
+            if hasattr(r2, "collect"):
+                r2 = r2.collect()
+            for f in check_agg_node(op, inp, r2, where):
+                OBS.failures.append({"property": "C09", "where": where, "detail": f + " | node: " +
+                                     op.to_python_src_(print_sources=False, indent=-1)[:300]})
+        except Exception as ex:  # the hook must never disturb the execution it observes
+            OBS.hit("c09:hook-error:" + type(ex).__name__)
+        finally:
+            _in_hook[0] = False
+        return res
+
+    return wrapper
+
+
+def install_step_hooks():
+    """wrap project / extend steps of the Pandas and Polars executors (class level for new instances, dispatch
+    table entries for the already registered model instances)"""
+    if _step_hooks[0]:
+        return
+    import data_algebra.data_model as dm
+    import data_algebra.pandas_base as pb
+    import data_algebra.polars_model as pm
+
+    pb.PandasModelBase._project_step = _wrap_step(pb.PandasModelBase._project_step, "_eval_value_source", "pandas")
+    pb.PandasModelBase._extend_step = _wrap_step(pb.PandasModelBase._extend_step, "_eval_value_source", "pandas")
+    pm.PolarsModel._project_step = _wrap_step(pm.PolarsModel._project_step, "_compose_polars_ops", "polars")
+    pm.PolarsModel._extend_step = _wrap_step(pm.PolarsModel._extend_step, "_compose_polars_ops", "polars")
+    try:
+        pm.register_polars_model()
+    except Exception:
+        pass
+    for inst in list(getattr(dm, "data_model_type_map", {}).values()):
+        tbl = getattr(inst, "_method_dispatch_table", None)
+        if isinstance(tbl, dict):
+            tbl["ProjectNode"] = inst._project_step
+            tbl["ExtendNode"] = inst._extend_step
+    _step_hooks[0] = True
+
+
 def drain(b, own=None):
     """move recorded contract failures into the batch: own property -> violation list returned, others -> counters"""
     mine = []
